@@ -598,6 +598,7 @@ def run_call(fn, bundle):
         exc = None
     except Exception as ex:                     # noqa: BLE001 — the exception type is the observed outcome
         res, exc = None, type(ex).__name__
+        bundle.last_message = str(ex)
     return res, exc, args, keep
 
 
@@ -777,6 +778,16 @@ def explore_entry(e, tier, deadline_at):
         res["classes"]["kinds:" + kl] += 1
         if x0:
             res["classes"]["reference-raises"] += 1
+            # An exported array operation that can NEVER return — Boost.Python has no class registered for its C++ result
+            # type — while the scalar binding of the same name returns a value for the elements: the array form does not
+            # "produce at each element position what the scalar binding produces". Grouped by the missing result type.
+            msg = getattr(bundle, "last_message", "")
+            mm = re.search(r"No to_python \(by-value\) converter found for C\+\+ type: (.+)$", msg)
+            if x0 == "TypeError" and mm and kinds == combos[0] and not runs and not mvar and not blocky:
+                ok0, _ = scalar_reference(e, bundle, 0)
+                if ok0:
+                    fail("array-op-unusable.result-type-not-registered:" + mm.group(1).strip().replace("PyImath::", "").replace("Imath_3_2::", ""),
+                         e.label(), "an array of per-element results", "TypeError: " + msg[:160])
         # determinism of the reference (uninitialised fields would make every later comparison meaningless)
         r0b, x0b, a0b, k0b = run_call(fn, bundle)
         if x0b != x0 or (x0 is None and canon(r0b, a0b, k0b) != ref):
